@@ -130,9 +130,23 @@ def loop (s : List Nat) (g1 : Nat) : Nat → PPos → Opts → List Nat → Exce
     | .error e => .error e
     | .ok (pos', o', rest') => loop s g1 fuel pos' o' rest'
 
-/-- `StringFormatOptions::parse(format_string)` -/
-def parse (s : List Nat) (g1 : Nat) : Except Err Opts :=
-  loop s g1 s.length .start {} s
+/-- The check in front of the loop (since /repo 60c7e2a): a first grapheme cluster (`g1` code points)
+that is directly followed by a grapheme cluster consisting of exactly one alignment character
+(`g2` = length of the second cluster) is the fill, whatever it starts with. Returns the pre-filled
+options and the remaining characters. -/
+def preCheck (s : List Nat) (g1 g2 : Nat) : Option (Opts × List Nat) :=
+  if g1 ≥ 1 && g2 == 1 then
+    match s[g1]? with
+    | some a => if isAlignCh a then some ({ fill := some (s.take g1), align := alignOf a }, s.drop (g1 + 1)) else none
+    | none => none
+  else none
+
+/-- `StringFormatOptions::parse(format_string)`; `g1`, `g2`: the lengths (in code points) of the first
+two grapheme clusters of the format string. -/
+def parse (s : List Nat) (g1 g2 : Nat) : Except Err Opts :=
+  match preCheck s g1 g2 with
+  | some (o, rest) => loop s g1 s.length .minWidth o rest
+  | none => loop s g1 s.length .start {} s
 
 /-- Decimal digits of `n`, most significant first, in front of `acc` (`fuel > n` suffices). -/
 def digitsAux : Nat → Nat → List Nat → List Nat
@@ -187,24 +201,26 @@ def wf (o : Opts) : Bool :=
         else if c == 48 then o.minWidth.isSome          -- `08`: zero fill needs a width after it
         else plainStart c && o.minWidth.isNone && o.precision.isNone && o.repr.isNone -- `{x:_}`: a lone fill
       | some (c :: d :: _) =>                           -- a cluster of several code points
-        plainStart c && c != 46 && !isAlignCh d
-          && (o.align != .default || (o.minWidth.isNone && o.precision.isNone && o.repr.isNone)))
+        if o.align != .default then true                -- (any cluster in front of an alignment: 60c7e2a)
+        else plainStart c && c != 46 && !isAlignCh d    -- a lone cluster goes through the per-character arms
+          && o.minWidth.isNone && o.precision.isNone && o.repr.isNone)
 
 /-- Well-formed options: the shapes `parse` can produce. -/
 def WF (o : Opts) : Prop := wf o = true
 
 instance (o : Opts) : Decidable (WF o) := inferInstanceAs (Decidable (wf o = true))
 
-def graphemeOk (o : Opts) (g : Nat) : Bool :=
+def graphemeOk (o : Opts) (g1 g2 : Nat) : Bool :=
   match o.fill with
-  | some (c :: d :: t) => g == (c :: d :: t).length
+  | some (c :: d :: t) => g1 == (c :: d :: t).length && (o.align == .default || g2 == 1)
   | _ => true
 
 /-- The grapheme segmenter, run on the rendered string, reports the (multi-code-point) fill
-cluster as the first cluster. -/
-def GraphemeOk (o : Opts) (g : Nat) : Prop := graphemeOk o g = true
+cluster as the first cluster and — when an alignment follows — the alignment character as a
+cluster of its own. (For fills of at most one code point nothing is assumed.) -/
+def GraphemeOk (o : Opts) (g1 g2 : Nat) : Prop := graphemeOk o g1 g2 = true
 
-instance (o : Opts) (g : Nat) : Decidable (GraphemeOk o g) :=
-  inferInstanceAs (Decidable (graphemeOk o g = true))
+instance (o : Opts) (g1 g2 : Nat) : Decidable (GraphemeOk o g1 g2) :=
+  inferInstanceAs (Decidable (graphemeOk o g1 g2 = true))
 
 end KotoVerif.FmtOptions
